@@ -27,6 +27,8 @@ pub fn clusters_from_sparse(mut indices: HashSet<(i32, i32, i32)>) -> Vec<Vec<(i
 
         while !to_visit.is_empty() {
             let current = to_visit.pop().unwrap();
+            #[cfg(feature = "verif")]
+            crate::verif_hooks::tick("raster3::clusters_from_sparse");
             working.push(current);
 
             for x in -1..=1 {
